@@ -313,10 +313,14 @@ class WebSocket:
             #   However, it is erroneously reported as missing on CPython 3.11.
             response['reason'] = reason
 
-        await self._asgi_send(response)
-
-        self._state = _WebSocketState.CLOSED
-        self._close_code = code
+        try:
+            await self._asgi_send(response)
+        finally:
+            # NOTE: The background receiver has been stopped, so the
+            #   connection is unusable from now on even if the server fails
+            #   to deliver the close event.
+            self._state = _WebSocketState.CLOSED
+            self._close_code = code
 
     async def send_media(
         self,
